@@ -206,6 +206,11 @@ fn exec<const M: u32>(op: Op, a: i64, b: u64) -> Obs {
             let x = nw(a);
             o.a = x.inner();
             o.r0 = x.pow(b).inner();
+            // related calls straight afterwards: the same base to the powers 0 and 1 (whatever the call remembers about
+            // its last base or exponent must not answer these), then the first call again
+            o.r1 = x.pow(0).inner();
+            o.r2 = x.pow(1).inner();
+            o.f0 = x.pow(b).inner() == o.r0;
         }
         Eq => {
             let x = nw(a);
@@ -497,6 +502,17 @@ fn judge(c: &Case, xa: u32, xb: u32, w: &Want, o: &Obs) -> Option<Fail> {
         New | Read | Add | Sub | Mul | Neg | Pow | AddAssign | SubAssign | MulAssign => {
             if o.r0 != w.r0 {
                 return fail(op, "result is not the representative of the true integer result", o.r0, w.r0);
+            }
+            if c.op == Pow {
+                if o.r1 != 1 % m {
+                    return fail(op, "x.pow(0) directly after x.pow(e) is not ONE", o.r1, 1 % m);
+                }
+                if o.r2 != xa {
+                    return fail(op, "x.pow(1) directly after x.pow(e), x.pow(0) is not x", o.r2, xa);
+                }
+                if !o.f0 {
+                    return fail(op, "x.pow(e) repeated after x.pow(0), x.pow(1) gives another result", false, true);
+                }
             }
         }
         Div | DivAssign => {
@@ -795,6 +811,32 @@ fn boundary_ctor_args(m: u32) -> Vec<i64> {
     ] {
         if !v.contains(&x) {
             v.push(x);
+        }
+    }
+    // exact multiples of M (and their neighbours) of every decimal length, both signs: the largest multiple below 10^k and
+    // the smallest one above it, up to the ends of i64
+    let mut p10: i128 = 10;
+    while p10 <= i64::MAX as i128 {
+        let below = (p10 - 1) / mm as i128 * mm as i128;
+        let above = below + mm as i128;
+        for t in [below, above] {
+            for d in [-1i128, 0, 1] {
+                for sgn in [1i128, -1] {
+                    let x = (t + d) * sgn;
+                    if x >= i64::MIN as i128 && x <= i64::MAX as i128 && !v.contains(&(x as i64)) {
+                        v.push(x as i64);
+                    }
+                }
+            }
+        }
+        p10 *= 10;
+    }
+    for t in [i64::MAX as i128 / mm as i128 * mm as i128, (i64::MIN as i128 / mm as i128) * mm as i128] {
+        for d in [-1i128, 0, 1] {
+            let x = t + d;
+            if x >= i64::MIN as i128 && x <= i64::MAX as i128 && !v.contains(&(x as i64)) {
+                v.push(x as i64);
+            }
         }
     }
     v
